@@ -778,6 +778,7 @@ def gen_rates(rnd, dyn='sto'):
         handlers[rnd.randrange(3)] = ['N', [['CLOCK']]]        # an event that leaves its element where it is
     P = [0.0, 0.0009765625, 0.125, 0.25, 0.5, 1.0]
     if dyn == 'sto': P = P + [2.0, 3.0, 1000.0]          # under Gillespie dynamics the numbers are rates, not bounded by 1
+    if rnd.random() < 0.35: P = [0.0, 0.1, 0.2, 0.3, 0.7, 0.6, 1.1] if dyn == 'sto' else [0.0, 0.1, 0.2, 0.3, 0.7, 0.6]      # rates whose running sums round
     nodeloci = [0, 1, 2]
     perel = []
     for l in rnd.sample(range(3), rnd.randint(1, 3)):
